@@ -40,6 +40,16 @@ def gen(tier, rng):
                               meta=dict(op="<<", A=A.short, K=K, side="lhs", anycount=True))
                 ln.mode = "ub"
                 out.append(ln)
+            # counts of other types than int: a count that does not fit int must still be judged as the count it is
+            # (seeded change M-C07-4 truncated it to int inside the overflow test)
+            for CT_ in ([U32, I64] if tier == "quick" else [U32, I64, U64, U8, I16]):
+                for K in ([1, A.max] if A in (I32, U32, I64) else []):
+                    dom = C06.mkset(CT_, 0, CT_.max)
+                    ln = C06.Line("clang/%s/%s<<%s/anycount/lhs=%d" % (tag, A.short, CT_.short, K), CT_, R,
+                                  "return unwrap(wrap<%s>(%s) << b);" % (C06.oi(A, tag), A.lit(K)), "return 0;", {}, domain=dom, pre=(["b >= 0"] if CT_.signed else []), tag=tag,
+                                  meta=dict(op="<<", A=A.short, K=K, side="lhs", anycount=True, count_type=CT_.short))
+                    ln.mode = "ub"
+                    out.append(ln)
             for K in [1, -1]:
                 if not (A.min <= K <= A.max):
                     continue
